@@ -1232,7 +1232,10 @@ void KMeans(matrix* m,
   UIVectorResize(cluster_labels, m->row);
   
   it = 0;
-  while(shouldStop(centroids, oldcentroids, it, 100) == 0)
+  /* label and update at least once: the zero-filled oldcentroids would otherwise
+   * look like a converged state whenever every seed lies within the absolute
+   * convergence tolerance of the origin (small-scale data) */
+  do
   {
     #ifdef DEBUG
     clock_t t = clock();
@@ -1262,7 +1265,7 @@ void KMeans(matrix* m,
     printf("getCentroids: %f\n", ((double)t)/CLOCKS_PER_SEC);
     #endif
     it++;
-  }
+  } while(shouldStop(centroids, oldcentroids, it, 100) == 0);
   if(_centroids_ == NULL){
     DelMatrix(&centroids);
   }
